@@ -22,7 +22,8 @@ def sh(cmd, **kw):
 
 def main():
     src = sys.argv[1]
-    only = sys.argv[2:]
+    only = [a for a in sys.argv[2:] if not a.startswith("--checks=")]
+    sel = [a.split("=", 1)[1].split(",") for a in sys.argv[2:] if a.startswith("--checks=")]
     assert sh("git -C /repo status --porcelain --untracked-files=no").stdout.strip() == ""
     for agent in sorted(REL):
         if only and agent not in only:
@@ -31,7 +32,7 @@ def main():
             p = os.path.join(src, agent, "out", f"{r}.diff")
             if not os.path.exists(p):
                 continue
-            for check in REL[agent]:
+            for check in (sel[0] if sel else REL[agent]):
                 a = sh(f"git -C /repo apply {p}")
                 if a.returncode:
                     rec = {"refactor": f"{agent}/{r}", "check": check, "result": "does not apply"}
